@@ -58,11 +58,18 @@ def gen_tone(rng):
     bps = 2 * num_pols * nbits // 8
     drift = 0.0
     if rng.random() < 0.35:
-        # move by a few fine bins over the block, staying inside the coarse channel
+        # move by a few fine bins over the block.  To keep the spectral peak well defined (a DSP matter, not what C07 is about) the sweep
+        # stays at least two fine bins inside the coarse channel (no aliasing at the channel edge) and moves at most half a bin per spectrum
+        rows = 6 * I
+        spb = L * rows
+        frac = max(-(0.5 - 5.0 / L), min(0.5 - 5.0 / L, frac))
+        if abs(frac) < 0.03:
+            frac = 0.03
+        f = fch1 + (1 if asc else -1) * (k + frac) * cbw
         dur = spb * nb / sr
         drift = rng.choice([-1, 1]) * rng.uniform(1.0, 3.0) * (cbw / L) / dur
     c = dict(sample_rate=sr, fch1=fch1, ascending=asc, nb=nb, taps=taps, nchans=nchans, start_chan=start, nants=nants, num_pols=num_pols, nbits=nbits,
-             block_size=nants * nchans * bps * spb, blocks_per_file=1, num_subblocks=rng.choice([1, 2, 32]), seed=rng.randint(0, 999),
+             block_size=nants * nchans * bps * spb, blocks_per_file=1, num_subblocks=rng.choice([1, 2]), seed=rng.randint(0, 999),
              noise=[[0.0, 0.3]], signals=[dict(f_start=f, drift=drift, level=2.0, phase=rng.uniform(0, 6))], num_blocks=1, load_template=False,
              fftlength=L, int_factor=I, tone_hz=f, drift=drift, k=k, frac=frac, directio=rng.random() < 0.4,
              req=dict(fwhm=8 if nbits == 4 else 32))
